@@ -59,6 +59,11 @@ def scenarios(tier):
         out.append({'name': f'polygons[UGRID {m[0]}]', 'fn': 'scn_mesh_polygons', 'kwargs': {'mi': mi}})
     for bd in ('yx4', 'xy4', 'yx3', '4yx'):
         out.append({'name': f'CFGrid2D stored bounds are used only when they are on the grid of the coordinate[bounds dims {bd}]', 'fn': 'scn_bounds_lookup', 'kwargs': {'bd': bd}})
+    for gi, g in enumerate(GRID_CONFIGS):
+        if g[1] in ('CFGrid1D', 'CFGrid2D', 'ShocSimple'):
+            out.append({'name': f'extent covers every cell[{g[0]}]', 'fn': 'scn_extent_grid', 'kwargs': {'gi': gi}})
+    for mi in (0, 3, 8):
+        out.append({'name': f'extent covers every face[UGRID {MESH_CONFIGS[mi][0]}]', 'fn': 'scn_extent_mesh', 'kwargs': {'mi': mi}})
     return out
 
 
@@ -265,3 +270,58 @@ def scn_bounds_lookup(c, bd):
         else:
             c.check(f'{coord}: stored bounds on other dimensions are not used', b.variable.arr is not stored.arr)
             c.check(f'{coord}: ... and a warning says so', warned)
+
+
+def _within(c, b, x, y, complete, what):
+    x, y = to_sfloat(x), to_sfloat(y)
+    c.check(f'{what}: inside the reported extent (x)', s_implies(complete, s_and(b[0].is_fin(), b[2].is_fin(), b[0].val <= x.val, x.val <= b[2].val)))
+    c.check(f'{what}: inside the reported extent (y)', s_implies(complete, s_and(b[1].is_fin(), b[3].is_fin(), b[1].val <= y.val, y.val <= b[3].val)))
+
+
+def scn_extent_grid(c, gi):
+    """CFGrid.bounds = (min x, min y, max x, max y): every corner of every cell that has a polygon lies inside it.
+    (Tightness with respect to the *kept* polygons does not hold -- known finding D10 -- and is not claimed here.)"""
+    name, conv_name, kw = GRID_CONFIGS[gi]
+    it = new_interp()
+    ds, conv = inputs.make_convention(it, c, conv_name, **kw)
+    ny, nx = ds.info['shape']['face']
+    b = expect_ok(c, 'bounds returns', lambda: attr(it, conv, 'bounds'))
+    c.check('four numbers: min x, min y, max x, max y', isinstance(b, tuple) and len(b) == 4 and all(hasattr(v, 'bound') for v in b))
+    if not (isinstance(b, tuple) and len(b) == 4 and all(hasattr(v, 'bound') for v in b)):
+        raise PathEnd()
+    j, i = _cell(c, ny, nx)
+    corners = _expected_corners(c, it, ds, conv_name, kw, j, i)
+    complete = _finite(*[v for xy in corners for v in xy])
+    # ghost: the minimum / maximum is below / above the entries of the reduced arrays that make up cell (j, i)
+    if conv_name == 'CFGrid1D':
+        for e in (0, 1):
+            b[0].bound((i, e)), b[2].bound((i, e)), b[1].bound((j, e)), b[3].bound((j, e))
+    else:
+        for e in range(4):
+            for v in b:
+                v.bound((j, i, e))
+    for k, (ex, ey) in enumerate(corners):
+        _within(c, b, ex, ey, complete, f'corner {k} of a cell that has a polygon')
+
+
+def scn_extent_mesh(c, mi):
+    name, kw = MESH_CONFIGS[mi]
+    from contracts.ugrid import FILL_KEY
+    it = new_interp(use=[FILL_KEY])
+    ds, conv = inputs.make_convention(it, c, 'UGridMesh', **kw)
+    nface, maxn = ds.info['nface'], ds.info['maxn']
+    b = expect_ok(c, 'bounds returns', lambda: attr(it, conv, 'bounds'))
+    c.check('four numbers: min x, min y, max x, max y', isinstance(b, tuple) and len(b) == 4 and all(hasattr(v, 'bound') for v in b))
+    if not (isinstance(b, tuple) and len(b) == 4 and all(hasattr(v, 'bound') for v in b)):
+        raise PathEnd()
+    f, k = c.fresh_int('f'), c.fresh_int('k')
+    c.assume(f >= 0)
+    c.assume(f < nface)
+    c.assume(k >= 0)
+    c.assume(k < ds.info['mesh_count'](f))
+    node = ds.info['mesh_node'](f, k)
+    V = ds._vars
+    x, y = V['node_x'].arr.fn((node,)), V['node_y'].arr.fn((node,))
+    for v in b:
+        v.bound((node,))
+    _within(c, b, x, y, _finite(x, y), 'a node of a face whose coordinates are all present')
